@@ -137,6 +137,10 @@ class Sweep:
         if v:
             self.fail('C01', f'{opname.split(chr(40))[0]}@{slot}:{self.name}:{path}:{opname}', f'after {opname}: {v}', **desc, src_after=root.src[:400])
         self.post_edit(root, f'{opname.split(chr(40))[0]}@{slot}:{self.name}:{path}:{opname}', opname, v)
+        if expect_same_structure and v:
+            self.fail('C08', f'{opname.split(chr(40))[0]}@{slot}:{self.name}:{path}:{opname}:c01',
+                      f'{opname} with the node\'s own code: the tree no longer equals what its source denotes: {v}',
+                      **desc, src_after=root.src[:400])
         if expect_same_structure and not v and sdump(root.a) != s0:
             self.fail('C08', f'{opname.split(chr(40))[0]}@{slot}:{self.name}:{path}:{opname}', f'{opname} with the node\'s own code changed the structure',
                       **desc, src_after=root.src[:400])
